@@ -16,3 +16,14 @@ for f in sorted(glob.glob(os.path.join(REPO, 'crates/*/src/**/*.rs'), recursive=
             out[f'{rel}::{m.group(1)}'] = dict(pairs)
 json.dump(out, open(e2.ROLES_FILE, 'w'), indent=1, sort_keys=True)
 print(len(out), 'structs')
+
+# function signatures of the pinned tree (lib/fnroles.json), from the MIR of every analysed crate
+import mirdump, fnroles
+from mirsym import mir as M
+tab = {}
+for crate in mirdump.CRATES:
+    prog = M.load(mirdump.mir_for(crate), REPO, crate)
+    prog.src_root = REPO
+    tab[crate] = fnroles.table_of(prog)
+json.dump(tab, open(fnroles.FILE, 'w'), indent=1, sort_keys=True)
+print({c: sum(len(v) for v in t.values()) for c, t in tab.items()}, 'functions')
